@@ -29,12 +29,15 @@ class C20(Prop):
             for chan in ("uni_zero_copy_full_sync", "multi_arc_full_sync", "multi_ogre_arc_full_sync"):
                 for pre in (0, 1, 2): cases.append(suspgen.mk_async(chan, rng.randint(0, 2), 1, parked=1, pre=pre))
         out.append(Suite("channels_async", "", cases, compare=False))
+        # producer and consumer on ONE thread of control: the resumed send finds the buffer full and must yield the thread
+        out.append(Suite("channels_async_same_thread", "", [suspgen.mk_same_thread(ch) for ch in suspgen.SAME_THREAD_KINDS for _ in range(reps)], compare=False))
         return out
     def oracle(self, case, recs):
+        if case.meta.get("profile") == "async_same": return suspgen.oracle_same_thread(case, recs)
         return suspgen.oracle_async(case, recs) if case.meta.get("profile") == "async" else suspgen.oracle_parked(case, recs)
     def nontrivial(self, case, recs):
-        return True if case.meta.get("profile") == "async" else suspgen.nontrivial_parked(case, recs)
+        return True if case.meta.get("profile") in ("async", "async_same") else suspgen.nontrivial_parked(case, recs)
     def parse_replay(self, text):
         lines = [l for l in text.splitlines() if l.strip() and not l.startswith("#")]
         cases = [suspgen.parse_async_line(l) if l.startswith("async") else suspgen.parse_case_line(l) for l in lines]
-        return Suite("replay", suspgen.HEADER, cases, compare=not any(c.meta.get("profile") == "async" for c in cases))
+        return Suite("replay", suspgen.HEADER, cases, compare=not any(c.meta.get("profile") in ("async", "async_same") for c in cases))
